@@ -485,6 +485,10 @@ THEOREMS["C01"] = [
     "Pest.run_gen", "Pest.step_gen", "Pest.rule_gen", "Pest.popAllLoop_full", "Pest.srel_restore", "Pest.srel_ok",
     "Pest.run_good", "Pest.Tables.expression_classes_covered", "Pest.Tables.special_builtins_match",
 ]
+THEOREMS["C02"] = ["Pest.C02." + t for t in (
+    "wf_of_check optimizer_sound optimized_skip_total optimizer_sound_expr optimizer_sound_noskip parse_eq_run opt_interp_agrees "
+    "opt_interp_vs_plain optgen_agrees").split()] + [
+    "Pest.OptS.optimize_sound", "Pest.OptS.wfCheck_sound", "Pest.Tables.default_passes_match", "Pest.L0.run_mono"]
 THEOREMS["C03"] = [
     "Pest.C03.interp_refines_spec", "Pest.C03.parse_agrees_with_spec", "Pest.C03.interp_exc_only_undefined",
     "Pest.C03.choice_commits", "Pest.C03.choice_next", "Pest.C03.opt_spec", "Pest.C03.and_spec", "Pest.C03.not_spec",
